@@ -150,6 +150,7 @@ def run(ctx):
         r.lost(rule, 'process_chunk', 'client process_chunk not found')
     r.assumptions += ['tokio::sync::oneshot::Sender is not Clone and send(self) consumes it (library contract)']
     earliest_deadline(ctx)
+    limit_after_reaping(ctx)
 
 
 def earliest_deadline(ctx, rule='earliest-deadline'):
@@ -194,3 +195,28 @@ def earliest_deadline(ctx, rule='earliest-deadline'):
     else:
         r.ok(rule, 'next_timeout', 'the running minimum is replaced only by an earlier pending deadline; expired requests (deadline <= now) are queued for BadTimeout', loc=b.loc)
     r.count('deadline_sites', n)
+
+
+def limit_after_reaping(ctx, rule='limit-after-reaping'):
+    """wait_for_outgoing_message decides between "accept the next request" and "only wait for the next deadline" by comparing
+    max_inflight with the number of requests in flight.  The count must be read after next_timeout() has completed (and
+    removed) the requests whose deadline passed in this very wake-up: with a stale count the loop sleeps on a deadline that no
+    longer exists while queued requests are never sent or timed out."""
+    import re
+    from ..facts import fmt_sym
+    r, db = ctx.r, ctx.db
+    bs = db.find_bodies(r'^client::transport::core::TransportState::wait_for_outgoing_message::\{closure#0\}$')
+    if not bs:
+        r.lost(rule, 'wait_for_outgoing_message', 'coroutine not found'); return
+    b = bs[0]; F = ctx.facts(b)
+    nt = [c for c in b.calls() if c.callee.endswith('TransportState::next_timeout')]
+    lens = [c for c in b.calls() if re.search(r'(HashMap|BTreeMap)::len$', c.callee) and 'message_states' in fmt_sym(b, F.sym_operand(c.args[0]))]
+    if len(nt) != 1 or not lens:
+        r.lost(rule, 'calls', 'expected one next_timeout() call and a message_states.len() in wait_for_outgoing_message (found %d / %d)' % (len(nt), len(lens))); return
+    for i, c in enumerate(lens):
+        if b.dominates(nt[0].bb, c.bb) and c.bb != nt[0].bb:
+            # and nothing that can change the table runs between the count and the decision: the count feeds a comparison in its own block chain
+            r.ok(rule, 'len#%d' % i, 'the in-flight count is read after next_timeout() of the same iteration', loc=c.loc)
+        else:
+            r.fail(rule, 'len#%d' % i, 'the in-flight count compared with max_inflight is read before next_timeout() has reaped the expired requests: when all in-flight '
+                   'requests expire together the loop waits on a deadline that no longer exists and queued requests are neither sent nor timed out', loc=c.loc)
